@@ -809,6 +809,29 @@ def run(chk: lib.Check):
     chk.coverage["datetime_environments"] = env_stats
     cnt("datetime_env_cases", sum(v["naive"] + v["aware"] for v in env_stats.values()))
 
+    # =================================================================== 2c. extremes: one value above 10,000,000 bytes
+    # (libxml2's default limit for a single text run; implementation oracle only, far too long for the Coq side)
+    huge_n = 10_000_000 + rng.randrange(1, 600_000)
+    for kindname in ("StringPOD", "HTMLStringPOD"):
+        cand_rows = [r for r in rows if r[2] == kindname and r[4] and r[7] and r[3] != "id"]
+        for r in rng.sample(cand_rows, min(2, len(cand_rows))):
+            alpha = rng.choice(["x", "ab c", "é\U0001f600 y"])
+            v = (alpha * (huge_n // len(alpha) + 1))[:huge_n]          # no markup-significant character: HTML repair has nothing to do
+            cls = resolve(r[0])
+            el = etree.Element("e")
+            obj = make(cls, el)
+            try:
+                setattr(obj, r[1], v)
+                rb = str(getattr(obj, r[1]))
+            except Exception as e:  # noqa: BLE001
+                rb = err_of(e)
+            chk.note_case(("huge", r[0], r[1], huge_n))
+            cnt("values_over_10MB")
+            if rb != v:
+                chk.violation(f"{kindname}:over-10MB", f"{r[0].rsplit('.', 1)[1]}.{r[1]} = <{huge_n} characters of {alpha!r}> stores "
+                              f"{len(el.get(r[3]) or '')} characters and reads back {rb if isinstance(rb, Err) else len(rb)} characters",
+                              {"class": r[0], "attribute": r[1], "characters": huge_n, "alphabet": alpha})
+
     # =================================================================== 3. linked text
     constraints = list(model.search("Constraint"))
     live = [o for o in model.search("LogicalFunction", "LogicalComponent")][:6]
